@@ -78,6 +78,10 @@ def mutate_expr(expr: str, names: List[str]) -> Iterator[Tuple[str, str]]:
             if others:
                 yield "expr_variable", re.sub(rf"\b{v}\b", others[0], expr, count=1)
             break
+    if " * " in expr and " + " in expr:
+        # swap an inner operator between + and * (same leaves, same outer shape, different meaning)
+        yield "expr_plus_times", expr.replace(" * ", " + ", 1)
+        yield "expr_plus_times", expr.replace(" + ", " * ", 1)
     if " + " in expr:
         yield "expr_operator", expr.replace(" + ", " - ", 1)
     elif " * " in expr:
@@ -289,7 +293,7 @@ def shrink_candidates(case):
 
 
 OPS = ["processor", "processor_template_text", "processor_slice_wrapped", "processor_slice_collection", "processor_dotted_key", "param_value_depth2", "param_value_depth3", "delete_node", "insert_node", "swap_nodes",
-       "sweep_wrapped_processor", "sweep_expr_constant", "sweep_expr_variable", "sweep_expr_operator", "sweep_var_lo", "sweep_var_hi",
+       "sweep_wrapped_processor", "sweep_expr_constant", "sweep_expr_variable", "sweep_expr_operator", "sweep_expr_plus_times", "sweep_var_lo", "sweep_var_hi",
        "sweep_var_steps", "sweep_var_scale", "sweep_var_endpoint", "sweep_var_sequence_element", "sweep_var_from_context_key",
        "sweep_mode", "sweep_broadcast", "sweep_collection"]
 
